@@ -52,6 +52,40 @@ def edited_programs():
             yield (f"edited/x:{k1}->{k2}", b)
 
 
+def edited_after_export_programs():
+    """a module edited AFTER it has been exported once (by assignment, add(), connection changes): the edit is either
+    refused, or the next package is still closed and self-consistent"""
+    import hdl21 as h
+    E6 = h.ExternalModule(name="E6b", port_list=[h.Inout(name="a"), h.Inout(name="b")], desc="", domain="c6")
+    edits = {
+        "setattr-instance-missing-port": lambda m: setattr(m, "late", E6()(a=m.v)),
+        "add-instance-missing-port": lambda m: m.add(E6()(a=m.v), name="late"),
+        "setattr-signal-other-width": lambda m: setattr(m, "v", h.Signal(width=3)),
+        "add-signal-other-width": lambda m: m.add(h.Signal(width=3), name="v"),
+        "setattr-port": lambda m: setattr(m, "w", h.Port(width=2)),
+        "reconnect": lambda m: m.u2.connect("a", h.Signal(name="nowhere")),
+        "disconnect": lambda m: m.u2.disconnect("a"),
+    }
+    for name, edit in edits.items():
+        for depth in (0, 1):
+            def b(edit=edit, depth=depth):
+                m = h.Module(name="EditedLate")
+                m.v = h.Signal()
+                m.w = h.Signal()
+                m.u2 = E6()(a=m.v, b=m.w)
+                top = m
+                if depth:
+                    top = h.Module(name="EditedLateTop")
+                    top.i = m()
+                h.to_proto(top)                       # first export: elaborates (and freezes) the design
+                try:
+                    edit(m)
+                except Exception:
+                    pass                              # refusing the edit is fine
+                return top
+            yield (f"edited-after-export/{name}/d{depth}", b)
+
+
 def faulted_programs():
     """the single-fault family of C02: a package, if one is returned at all, must still be well-formed"""
     from props import c02
@@ -88,11 +122,11 @@ def run(ctx):
     c01_deductive.run(ctx)
     from contracts import c_export
     ctx.verify(c_export.names_engine(), c_export.VERIFY_NAMES)
-    cases = itertools.chain(design_family(ctx.tier, ctx.seed), extra_programs(), edited_programs(), faulted_programs(),
+    cases = itertools.chain(design_family(ctx.tier, ctx.seed), extra_programs(), edited_programs(), edited_after_export_programs(), faulted_programs(),
                             adversarial_programs())
     ctx.run_bounded("wf_package(to_proto(design))", cases, check_pkg,
                     rule=RULE + "; plus Series/MosStack/Wrapper over small parameter ranges; modules whose names were "
-                         "re-used for another kind (16 pairs); the single-fault designs of C02 (a package returned for "
+                         "re-used for another kind (16 pairs); modules edited after a first export (7 edits x 2 depths); the single-fault designs of C02 (a package returned for "
                          "one of them must still be well-formed); the adversarially named designs of C05",
                     bound="depth<=3, widths<=4 (8 thorough)", key_of=lambda c: c[0],
                     nontrivial=lambda c: nontrivial(c[0]))
@@ -103,7 +137,7 @@ def replay(payload):
     want = (payload.get("input") or {}).get("design")
     if want:
         for tier in ("quick", "thorough"):
-            for desc, b in itertools.chain(design_family(tier, 0), extra_programs(), edited_programs(), faulted_programs(),
+            for desc, b in itertools.chain(design_family(tier, 0), extra_programs(), edited_programs(), edited_after_export_programs(), faulted_programs(),
                             adversarial_programs()):
                 if desc == want:
                     r = check_pkg((desc, b))
